@@ -23,6 +23,19 @@
                                notify_stream_closed and the hand-over to the disposal queue, so its start is used)
      cs pipeobj <1st> / <2nd>  AProd at JInput (LInput) / JProc (LProcess)
      cs pwaker j               ACons / AEnv at WCall j (LPipeWaker), by the task that took waker j
+     api COOPYIELD             (runner) the processing future of a SLOW item returned Pending: the model's job must be at JSusp
+                               (after the JProc section of an item listed as slow: g<k>n<n> in the program text, or - several
+                               producing callers - read off the log).  The suspended job is re-polled by whichever thread runs
+                               the queue next: the first PipeStreamCore section of a thread that is not in its consumer role
+                               while the model is at JSusp makes that thread the runner (silent AProd, JSusp -> JPush).  The
+                               consumer thread is in its consumer role only between PROBE / CONSUME and CONSUMED[END], after
+                               SETDEPTH, and inside Drop::drop.
+     api DROPOBJ q             the program drops ITS handle (X): the model's AExtDrop is applied lazily (other callers hold
+                               temporary clones during their operations): when an upgrade fails, or at the end.
+   References: WCtx (upgrade) -> WEnq (enqueue + drop of the temporary Arc) are taken at once after `cs pwaker`; a thread that
+   dropped the LAST Arc<Desync> (WSync / ChSync / xsync: it is inside Desync::drop) completes as soon as the model's queue has
+   drained, at the latest at the end, where `freed` must be 1 if the stream and the program's handle were dropped and no poll
+   job is left (the harness waits for the object to be freed), and never more than 1.
    Silent model steps: JWake (taken at once after the section that took the consumer's waker); the return from poll_next
    (at once when no back-pressure waker was taken, else after the wake); WCtx (at once after `cs pwaker`; whether the
    upgrade succeeded is read off the log: it failed iff the task's next pipe section is `pollfn`); CDrop2 -> CGone (the
@@ -67,7 +80,7 @@ let facts = ref replay_facts
 let trace = ref false
 
 (* ---------- program text: the one pipe, its stream, object, depth, is the release awaited ---------- *)
-type pinfo = { obj : int; stream : int; pdepth : int; has_z : bool }
+type pinfo = { obj : int; stream : int; pdepth : int; has_z : bool; slow_items : int list option (* None: read off the log *) }
 
 let parse_prog (text : string) : pinfo =
   let parts = String.split_on_char '|' text in
@@ -83,16 +96,29 @@ let parse_prog (text : string) : pinfo =
   let (k, j) = num t (j + 1) in
   let (d, _) = num t (j + 1) in
   let has_z = List.exists (fun t -> t.[0] = 'Z' && fst (num t 1) = k) toks in
-  { obj = q; stream = k; pdepth = d; has_z }
+  (* which items are SLOW (g<k>n<n>): items are numbered in the order of the PRODUCE events; known from the text when one
+     caller produces them all *)
+  let per_caller = List.map (fun part ->
+      List.filter_map (fun t -> if (t.[0] = 'G' || t.[0] = 'g') && fst (num t 1) = k then Some (t.[0] = 'g', fst (num t (snd (num t 1) + 1))) else None)
+        (List.filter (fun x -> x <> "") (String.split_on_char ' ' part))) (List.tl parts) in
+  let slow_items = match List.filter (fun l -> l <> []) per_caller with
+    | [] -> Some []
+    | [ops] -> let next = ref 0 in
+      Some (List.concat_map (fun (slow, cnt) -> let l = List.init cnt (fun j -> !next + j) in next := !next + cnt; if slow then l else []) ops)
+    | _ -> None in
+  { obj = q; stream = k; pdepth = d; has_z; slow_items }
 
 (* ---------- printing the model state for messages ---------- *)
 let show_pc = function
   | JStart -> "JStart" | JFull -> "JFull" | JClosedTake -> "JClosedTake" | JLoop -> "JLoop" | JInput -> "JInput"
   | JPendStore -> "JPendStore" | JEndClose -> "JEndClose" | JProc x -> Printf.sprintf "JProc %d" (i x)
+  | JSusp x -> Printf.sprintf "JSusp %d" (i x)
   | JPush v -> Printf.sprintf "JPush %d" (i v)
   | JWake (w, k) -> Printf.sprintf "JWake %s %s" (match w with Some w -> string_of_int (i w) | None -> "none") (match k with KLoop -> "KLoop" | KRet -> "KRet")
   | JClear -> "JClear"
-let show_wk = function WIdle -> "WIdle" | WCall k -> Printf.sprintf "WCall %d" (i k) | WCtx -> "WCtx" | WTakeFn -> "WTakeFn"
+let show_wk = function WIdle -> "WIdle" | WCall k -> Printf.sprintf "WCall %d" (i k) | WCtx -> "WCtx" | WEnq -> "WEnq"
+                       | WTakeFn -> "WTakeFn" | WSync -> "WSync"
+let show_ch = function ChIdle -> "idle" | ChQueued -> "queued" | ChSync -> "sync"
 let show_cst = function CIdle -> "CIdle" | CRun b -> Printf.sprintf "CRun %b" b | CPend -> "CPend" | CDone -> "CDone"
                         | CDrop1 -> "CDrop1" | CDrop2 -> "CDrop2" | CGone -> "CGone"
 let show_label = function LPollFn -> "pollfn" | LStream -> "pstream" | LInput -> "input" | LProcess -> "process"
@@ -101,12 +127,13 @@ let show_opt = function Some k -> string_of_int (i k) | None -> "none"
 let show_actor = function
   | AProd -> "AProd" | ACPoll -> "ACPoll" | ACProbe -> "ACProbe" | ACons -> "ACons" | ACDrop -> "ACDrop" | ACSetDepth d -> Printf.sprintf "ACSetDepth %d" (i d)
   | AItem -> "AItem" | AEnd -> "AEnd" | AEnv -> "AEnv" | ADispose -> "ADispose" | AExtDrop -> "AExtDrop"
+  | AExtSync -> "AExtSync"
 let show_state (s : state) =
-  Printf.sprintf "job %s, queue [%s]; consumer %s latest=%d woken=%b cwk=%s; core pending=%d depth=%d closed=%b notify=%s nsc=%s bp=%s; input rest=%d avail=%d ended=%b waker=%s ewk=%s; poll_fn=%b strong=%b chute=%b"
+  Printf.sprintf "job %s, queue [%s]; consumer %s latest=%d woken=%b cwk=%s; core pending=%d depth=%d closed=%b notify=%s nsc=%s bp=%s; input rest=%d avail=%d ended=%b waker=%s ewk=%s; poll_fn=%b strong=%b ext=%b chute=%s xsync=%b freed=%d"
     (match s.running with None -> "none" | Some (j, pc) -> Printf.sprintf "%d at %s" (i j) (show_pc pc))
     (String.concat ";" (List.map (fun j -> string_of_int (i j)) s.jobq))
     (show_cst s.cst) (i s.clatest) s.cwoken (show_wk s.cwk) (List.length s.pending) (i s.depth) s.closed (show_opt s.notify) (show_opt s.nsc) (show_opt s.bp)
-    (List.length s.inp_rest) (i s.inp_avail) s.inp_ended (show_opt s.inp_waker) (show_wk s.ewk) s.poll_fn s.strong_held s.chute
+    (List.length s.inp_rest) (i s.inp_avail) s.inp_ended (show_opt s.inp_waker) (show_wk s.ewk) s.poll_fn s.strong_held s.ext_owner (show_ch s.chute) s.xsync (i s.freed)
 
 (* ---------- statistics ---------- *)
 type stats = { mutable steps : int; mutable labelled : int }
@@ -123,7 +150,21 @@ let replay (p : pinfo) (evs : ev array) : stats =
   Array.iter (fun e -> if e.kind = "api" && e.id = p.stream then begin
       if e.cls = "CLOSE" then closed_seen := true;
       if e.cls = "PRODUCE" then (if !closed_seen then raise (Unsupported "PRODUCE after CLOSE (the model's input ends after its last item)"); incr nitems) end) evs;
-  let s = ref (init !facts (List.init !nitems nat_of_int) true) in
+  (* slow items: from the program text, else from the log (item number j is slow iff api COOPYIELD follows its processing section) *)
+  let slow_list = match p.slow_items with
+    | Some l -> l
+    | None ->
+      let pobjs = ref [] and idx = ref 0 and acc = ref [] in
+      Array.iteri (fun k0 e ->
+          if e.kind = "new" && e.cls = "pipeobj" then pobjs := !pobjs @ [e.id];
+          if e.kind = "cs" && e.cls = "pipeobj" && (match !pobjs with [_; pid] -> e.id = pid | _ -> false) then begin
+            let rec nxt j = if j >= n then false else let e' = evs.(j) in
+                if e'.task <> e.task then nxt (j + 1)
+                else if e'.kind = "api" && e'.cls = "COOPYIELD" then true
+                else if e'.cls = "pstream" || e'.cls = "pipeobj" || e'.cls = "pollfn" then false else nxt (j + 1) in
+            if nxt (k0 + 1) then acc := !idx :: !acc; incr idx end) evs;
+      !acc in
+  let s = ref (init_slow !facts (List.init !nitems nat_of_int) (List.map nat_of_int slow_list) true) in
   let st = { steps = 0; labelled = 0 } in
   let cur = ref 0 in
   let div fmt = Printf.ksprintf (fun m -> raise (Diverge (Printf.sprintf "event %d: %s" !cur m))) fmt in
@@ -153,6 +194,8 @@ let replay (p : pinfo) (evs : ev array) : stats =
      every other poll of the consumer is a re-poll inside block_on, which happens only after ITS waker was called *)
   let has_read_markers = Array.exists (fun e -> e.kind = "api" && e.cls = "CONSUME") evs in
   let free_poll = ref false in
+  let in_consume = ref false in                  (* the consumer thread is inside a read (between PROBE / CONSUME and CONSUMED[END]) *)
+  let coop_yielded = ref false in                (* api COOPYIELD seen: the poll job is suspended in the middle of a slow item *)
   let is_runner t = t = !runner && !s.running <> None in
   let settle_jwake () =
     while (match !s.running with Some (_, JWake (_, _)) -> true | _ -> false) do
@@ -161,7 +204,16 @@ let replay (p : pinfo) (evs : ev array) : stats =
        | _ -> ());
       silent AProd "notify.map(wake) of the poll job" done in
   let settle_cons_return () = match !s.cst, !s.cwk with CRun _, WIdle -> silent ACons "return from poll_next" | _ -> () in
+  let pend_sync : (int, slot) Hashtbl.t = Hashtbl.create 4 in     (* task -> it dropped the last Arc<Desync>: it is inside Desync::drop *)
+  let settle_sync t what =
+    match Hashtbl.find_opt pend_sync t with
+    | Some sl ->
+      (match step_label !facts f_out !s (slot_actor sl) with
+       | Some LNone -> Hashtbl.remove pend_sync t; silent (slot_actor sl) "Desync::drop: the final sync completes, the object is freed"
+       | _ -> div "task %d performs %s, but in the model it is still inside Desync::drop waiting for the poll jobs (model: %s)" t what (show_state !s))
+    | None -> () in
   let no_obligation t what =
+    settle_sync t what;
     (match Hashtbl.find_opt exp_call t with
      | Some sl -> div "task %d performs %s, but the model expects it to call the PipeWaker it took first (%s slot at %s)" t what (slot_name sl) (show_wk (slot_wk sl))
      | None -> ());
@@ -195,7 +247,7 @@ let replay (p : pinfo) (evs : ev array) : stats =
   let make_dead t =
     (* the implementation's upgrade failed: no strong reference is left; the model's silent releases must have been possible *)
     if !s.strong_held then begin
-      if !s.chute then (silent ADispose "on_drop runs on the disposal queue"; hit "dispose_forced_by_failed_upgrade")
+      if !s.chute = ChQueued then (silent ADispose "on_drop runs on the disposal queue"; hit "dispose_forced_by_failed_upgrade")
       else div "task %d: the upgrade of the Weak<Desync> failed in the implementation, but in the model the pipe still holds its strong reference (stream %s)" t (show_cst !s.cst) end;
     if !s.ext_owner then begin
       if !dropobj_seen then silent AExtDrop "last external owner drops"
@@ -206,7 +258,12 @@ let replay (p : pinfo) (evs : ev array) : stats =
        (match lookahead_upgrade t with
         | UOk ->
           if not (desync_alive !s) then div "task %d scheduled a poll job after its wake (no poll_fn take follows), but in the model no strong reference to the Desync is left" t;
-          hit (if !s.running <> None then "enqueue_while_job_running" else "enqueue"); silent (slot_actor sl) "upgrade + enqueue of a poll job"
+          hit (if !s.running <> None then "enqueue_while_job_running" else "enqueue");
+          silent (slot_actor sl) "target.upgrade() succeeds";
+          silent (slot_actor sl) "future_desync enqueues a poll job; the temporary Arc is dropped";
+          (match slot_wk sl with
+           | WSync -> hit "wake_thread_drops_last_arc"; Hashtbl.replace pend_sync t sl
+           | _ -> ())
         | UFail ->
           make_dead t; hit "upgrade_failed"; silent (slot_actor sl) "failed upgrade"; Hashtbl.replace pend_take t sl)
      | WIdle -> hit "dead_waker_called"
@@ -244,7 +301,14 @@ let replay (p : pinfo) (evs : ev array) : stats =
     | "api", "CLOSE" when e.id = p.stream -> input_event t AEnd "CLOSE"
     | "api", ("PROBE" | "CONSUME" | "CONSUMED" | "CONSUMEDEND" | "DROPSTREAM") when !free_poll ->
       div "the harness announced a poll of the output stream (PROBE / CONSUME) but no PipeStreamCore section of the consumer followed before %s" e.cls
-    | "api", ("PROBE" | "CONSUME") -> no_obligation t e.cls; free_poll := true
+    | "api", ("PROBE" | "CONSUME") -> no_obligation t e.cls; free_poll := true; in_consume := true
+    | "api", "COOPYIELD" ->
+      (match !s.running with
+       | Some (_, JSusp _) when t = !runner ->
+         if !coop_yielded then div "a second api COOPYIELD for the same item (the processing future yields once)";
+         hit "item_suspended"; coop_yielded := true
+       | _ -> if is_runner t || !s.running = None && !created then
+           div "the processing future of an item yielded (api COOPYIELD by task %d), the model's poll job is not suspended in a slow item (model: %s)" t (show_state !s))
     | "api", "SETDEPTH" -> no_obligation t "SETDEPTH"; setdepth := Some e.id
     | "api", "DROPSTREAM" ->
       no_obligation t "DROPSTREAM";
@@ -255,20 +319,21 @@ let replay (p : pinfo) (evs : ev array) : stats =
        | Some (`Item v) -> div "the consumer received %d, the model's poll_next returned %d" e.id v
        | Some `End -> div "the consumer received %d, the model's poll_next returned end-of-stream" e.id
        | None -> div "the consumer received %d, but the model's last poll_next was not Ready (consumer %s)" e.id (show_cst !s.cst));
-      impl_delivered := e.id :: !impl_delivered
+      impl_delivered := e.id :: !impl_delivered; in_consume := false
     | "api", "CONSUMEDEND" ->
       (match !exp_result with
        | Some `End -> exp_result := None
        | Some (`Item v) -> div "the consumer saw the end of the stream, the model's poll_next returned %d" v
        | None -> div "the consumer saw the end of the stream, but the model's last poll_next was not Ready(None) (consumer %s)" (show_cst !s.cst));
-      impl_end := true
+      impl_end := true; in_consume := false
     | "api", "DROPOBJ" when e.id = p.obj -> dropobj_seen := true
-    | "acq", "pstream" when t = !consumer && !drop_pending && not (is_runner t) ->
+    | "acq", "pstream" when t = !consumer && !drop_pending ->
       (* Drop for PipeStream: the section opens here and stays open until its `cs` *)
       no_obligation t "Drop::drop";
       (match !s.nsc with Some j -> hit (if is_live !s j then "drop_takes_live_waker" else "drop_takes_dead_waker") | None -> hit "drop_finds_no_waker");
       (match !s.running with
        | Some (_, (JLoop | JInput | JProc _ | JPush _ | JWake (_, KLoop))) -> hit "drop_mid_loop"
+       | Some (_, JSusp _) -> hit "drop_while_item_suspended"
        | Some (_, JPendStore) -> hit "drop_before_pending_arm_store"
        | Some (_, (JStart | JFull)) -> hit "drop_before_closed_test"
        | Some _ -> hit "drop_while_job_finishing"
@@ -276,7 +341,16 @@ let replay (p : pinfo) (evs : ev array) : stats =
       do_step ACDrop LStream "Drop::drop (start of its section)";
       drop_pending := false; in_drop := true; after_take_waker t SCons
     | "cs", "pstream" ->
-      if is_runner t then begin
+      (* the consumer thread is in its consumer role only inside a harness operation on the output stream *)
+      let consumer_role = t = !consumer && (!in_consume || !setdepth <> None || !in_drop) in
+      (* a suspended poll job is re-polled by whichever thread runs the queue next: its first section is the push *)
+      (match !s.running with
+       | Some (_, JSusp _) when not consumer_role ->
+         if not !coop_yielded then div "task %d continues the poll job after a slow item, but the implementation did not report the yield (api COOPYIELD)" t;
+         coop_yielded := false; (if t <> !runner then hit "resumed_on_another_thread" else hit "resumed_on_same_thread");
+         runner := t; silent AProd "the suspended poll job is re-polled: the item's processing completes"
+       | _ -> ());
+      if is_runner t && not consumer_role then begin
         (match !s.running with
          | Some (_, JFull) -> if i !s.depth <= List.length !s.pending then hit "job_throttled" else if !s.closed then hit "job_sees_closed" else ()
          | Some (_, JPendStore) -> if !s.closed then hit "pending_arm_sees_closed" else hit "pending_arm_stores_waker"
@@ -377,7 +451,21 @@ let replay (p : pinfo) (evs : ev array) : stats =
   if !drop_pending then div "at END: the program dropped the output stream but no PipeStreamCore section of the consumer followed";
   settle_cons_return ();
   (match !s.cst with CDrop2 -> silent ACons "the PipeStream's Arc<core> is dropped" | _ -> ());
-  if !s.chute then silent ADispose "on_drop runs on the disposal queue";
+  (* every caller has finished: the program's handle is gone if it dropped it (X), and so are the temporary clones *)
+  if !dropobj_seen && !s.ext_owner then silent AExtDrop "the program's handle of the object was dropped (X)";
+  if !s.chute = ChQueued then silent ADispose "on_drop runs on the disposal queue";
+  (* whoever dropped the last Arc<Desync> completes Desync::drop as soon as the queue has drained *)
+  let flush_syncs () =
+    Hashtbl.iter (fun t sl -> if step_label !facts f_out !s (slot_actor sl) = Some LNone then silent (slot_actor sl) "Desync::drop completes") pend_sync;
+    if !s.chute = ChSync && drained !s then (hit "object_freed_on_the_chute"; silent ADispose "Desync::drop on the disposal queue completes: the object is freed");
+    if !s.xsync && drained !s then silent AExtSync "Desync::drop of the external owner completes" in
+  flush_syncs ();
+  if i !s.freed > 1 then div "at END: the model freed the object %d times" (i !s.freed);
+  (* the harness waits (after END) until the object has been freed: with the stream dropped, the program's handle dropped and the
+     queue drained the model must have freed it, exactly once *)
+  if !drop_marker && !dropobj_seen && drained !s && i !s.freed <> 1 then
+    div "at END: stream dropped, object handle dropped, no poll job left, but the model has not freed the object (%s)" (show_state !s);
+  (if i !s.freed = 1 then hit "object_freed");
   let model_delivered = List.map i !s.delivered and impl_del = List.rev !impl_delivered in
   if model_delivered <> impl_del then
     div "at END: the consumer received [%s] in the implementation and [%s] in the model"
